@@ -6,7 +6,7 @@ ID=$1; shift
 TIER=${VERIF_TIER:-quick}; EXTRA=()
 while [ $# -gt 0 ]; do case "$1" in --tier) TIER=$2; shift 2;; --tier=*) TIER=${1#--tier=}; shift;; *) EXTRA+=("$1"); shift;; esac; done
 export VERIF_TIER=$TIER VERIF_PART=e2
-lid=$(echo $ID | tr A-Z a-z)e2
+lid=$(echo $ID | tr A-Z a-z)e2; [ -d seq/$lid ] || lid=$(echo $ID | tr A-Z a-z)
 B=${VERIF_CACHE:-/var/tmp/verif-cache}/seq; mkdir -p $B
 MF=""
 if [ "$VERIF_REPO" != /repo ]; then
